@@ -8,6 +8,8 @@ use vstd::prelude::*;
 
 verus! {
 
+//@ include std_specs.inc
+
 //@ include b64_enc_spec.inc
 
 // ---------------------------------------------------------------- chunk independence (spec level)
